@@ -466,6 +466,14 @@ func (r *SqlManager) transactionHelper(ctx context.Context, operation func(tx *g
 		if errManager != nil {
 			// Delete the DID Document versions
 			for _, change := range changes {
+				if change.Type == orm.DIDChangeCreated {
+					// the DID itself was created by this operation: remove it as well (its versions and changelog are removed via cascade),
+					// otherwise the subject would continue to exist without DID documents and could not be created again.
+					if err := tx.Where("id = ?", change.DIDDocumentVersion.DID.ID).Delete(&orm.DID{}).Error; err != nil {
+						return err
+					}
+					continue
+				}
 				// will also remove changelog via cascade
 				if err := tx.Where("id = ?", change.DIDDocumentVersionID).Delete(&orm.DidDocument{}).Error; err != nil {
 					return err
@@ -583,6 +591,14 @@ func (r *SqlManager) Rollback(ctx context.Context) {
 			// if one failed, delete all document versions for this transaction_id
 			if !committed {
 				for _, change := range versionChanges {
+					if change.Type == orm.DIDChangeCreated {
+						// see transactionHelper: a rolled back creation also removes the DID
+						err := tx.Where("id = ?", change.DIDDocumentVersion.DID.ID).Delete(&orm.DID{}).Error
+						if err != nil {
+							return err
+						}
+						continue
+					}
 					err := tx.Where("id = ?", change.DIDDocumentVersionID).Delete(&orm.DidDocument{}).Error
 					if err != nil {
 						return err
